@@ -1670,6 +1670,224 @@ def e2e_def(chk, env):
                               {'kind': 'hist', 'html': html, 'base': 0, 'case': 0, 'history': [define, call + tail], 'expected': exp + tail, 'canon': True})
 
 
+# #DEF flags as a SUM (documentation: 1 = replacement fields instead of $-placeholders, 2 = expanded in isolation as soon as
+# it is encountered + output stripped).  Bodies are written once in a neutral form ('<<a>>' marks a parameter) and rendered
+# in $-form (flags 0/2) and in field form (flags 1/3, literal braces doubled); all four macros live in one writer.
+DEF_PH = re.compile(r'<<([a-z]+)>>')
+
+# (label, integer parameters with defaults, string parameter (name, default in neutral form) or None, body in neutral form)
+DEF_DIRECTED = (
+    ('let-eval', 'n', None, '#LET(x=<<n>>*<<n>>) #EVAL({x})'),                 # empty expansion leaves a leading blank
+    ('let-eval-tail', 'n', None, '#LET(x=<<n>>+1) #EVAL{x}'),
+    ('peek-open', 'a', None, '#PEEK<<a>>'),                                   # unbracketed last parameter: can swallow digits
+    ('peek-sum', 'a,b=2', None, '#PEEK<<a>>+<<b>>'),
+    ('eval-open', 'a', None, '#EVAL<<a>>'),
+    ('eval-open2', 'a,b=3', None, 'v=#EVAL<<a>>*<<b>>'),
+    ('n-open', 'a', None, '#N<<a>>'),
+    ('n-lead', 'a', None, ' #N(<<a>>,2)'),
+    ('chr-open', 'a', None, '#CHR<<a>>'),
+    ('chr-closed', 'a', None, '#CHR(<<a>>)'),
+    ('space-tail', 'a', None, 'x<<a>>#SPACE2'),                               # trailing blanks produced by a macro
+    ('space-lead', 'a', None, '#SPACE(2)y<<a>>'),
+    ('space-open', 'a', None, 'z#SPACE<<a>>'),
+    ('let-tail', 'a', None, 'v<<a>> #LET(q=<<a>>)'),
+    ('let-lead', 'a', None, '#LET(q=<<a>>) v<<a>>'),
+    ('let-both', 'a', None, '#LET(q=<<a>>)  m<<a>>  #LET(r=1)'),
+    ('inner-blanks', 'a', None, 'p<<a>>  q   r'),
+    ('if-open', 'n', None, '#IF(<<n>>==0)'),                                  # the documentation's #IFZERO: not self-contained
+    ('if-closed', 'n', ('s', None), '#IF(<<n>>==0)(<<s>>, no )'),
+    ('map-open', 'n', None, '#MAP<<n>>'),
+    ('for-open', 'n', None, '#FOR1,<<n>>'),
+    ('for-closed', 'n', None, '#FOR(1,<<n>>)(k, k )'),
+    ('format-brace', 'a', None, '#LET(w=<<a>>)#FORMAT({w:03})'),
+    ('str-default', 'a', ('s', '(<<a>>)'), '<<s>>#EVAL<<a>>'),
+    ('str-default-blank', 'a', ('s', ' d<<a>> '), '#LET(q=0) <<s>> #N<<a>>'),
+    ('str-tail', 'a', ('s', None), '#EVAL(<<a>>) <<s>>'),
+    ('literal', 'a', None, 'plain'),
+    ('peek-after-text', 'a,b=15', None, 'k #PEEK<<b>>'),
+)
+DEF_POSTS = ('', '5', '07', ',16', ',2,8', '+1', '*2', '(x)', '(1)', '(a,b)', '(7,2)', '[q]', '{z}', ' end', '.', ' 5', '-1')
+DEF_ELEMS = ('w<<a>>', '#LET(x=<<a>>+1)', '#EVAL(<<a>>*2)', '#EVAL({x})', '#N(<<a>>)', '#SPACE(1)', '#SPACE<<b>>', '#IF(<<a>>>5)(hi,lo)',
+             '#IF(<<b>>)( t,f )', '#FOR(1,<<b>>)(k,k)', '#LET(y=<<b>>)', '<<a>>', '[<<b>>]', '{lit}', '#CHR(65+<<b>>)', '#PEEK(<<a>>)')
+DEF_LAST = ('#PEEK<<a>>', '#EVAL<<b>>', '#N<<a>>', '#CHR<<a>>', '#EVAL<<a>>+<<b>>', '#SPACE<<b>>', '#N<<a>>,2', '#EVAL<<a>>,16', '#MAP<<b>>',
+            '#IF(<<a>>)', '#PEEK(<<a>>)', '#EVAL(<<b>>)', '#LET(z=<<a>>)', 'end<<b>>', '#FOR(0,<<b>>)', '#STR<<a>>')
+
+
+def def_render(neutral, field):
+    """Neutral body -> $-form (`$a`, `${a}` before a name character) or field form (`{a}`, other braces doubled)."""
+    out, i = [], 0
+    for m in DEF_PH.finditer(neutral):
+        lit = neutral[i:m.start()]
+        i = m.end()
+        if field:
+            out.append(lit.replace('{', '{{').replace('}', '}}') + '{%s}' % m.group(1))
+        else:
+            nxt = neutral[i:i + 1]
+            out.append(lit + ('${%s}' if (nxt.isalnum() or nxt == '_') else '$%s') % m.group(1))
+    lit = neutral[i:]
+    out.append(lit.replace('{', '{{').replace('}', '}}') if field else lit)
+    return ''.join(out)
+
+
+def def_subst(neutral, values):
+    return DEF_PH.sub(lambda m: str(values[m.group(1)]), neutral)
+
+
+def def_random_body(rng):
+    n = rng.choice((0, 1, 1, 2, 3))
+    parts = [rng.choice(DEF_ELEMS) for _ in range(n)] + [rng.choice(DEF_LAST if rng.random() < 0.7 else DEF_ELEMS)]
+    body = ''
+    for p in parts:
+        body += (rng.choice(('', ' ', ' ', '  ')) if body else '') + p
+    return body
+
+
+def e2e_def_flags(chk, env):
+    """#DEF flags 0..3 on the same body.  Oracles, all exact (no white-space canonicalisation; the call site is bracketed
+    so that AsmWriter.expand's strip of the whole text cannot hide anything):
+      * flags 3 = flags 2 and flags 1 = flags 0 (the two ways of writing the arguments define the same macro);
+      * flags 0: the call expands to what the body, with the arguments put in textually, expands to at the call site
+        (so a macro ending in an unbracketed parameter goes on reading the text that follows the call);
+      * flags 2: the body is expanded on its own, stripped, and the text after the call is untouched; a body that is not
+        self-contained (the documentation's #IFZERO) is an error;
+      * directed cases with the expected text written out."""
+    rng = chk.rng
+    reset = '#LET(x=0)#LET(y=0)#LET(z=0)#LET(q=0)#LET(r=0)#LET(w=0)'       # every variable a body assigns or reads
+    pre = '#POKES1,77;15,99;2,7;12,8;20,3;150,4;157,6 ' + reset
+    bodies = [(lab, sig, sp, body) for lab, sig, sp, body in DEF_DIRECTED]
+    for k in range(chk.scale(45, 700)):
+        sig = rng.choice(('a,b', 'a,b=2', 'a=1,b=2', 'b,a=15'))
+        sp = rng.choice((None, None, ('s', None), ('s', 'D<<a>>'), ('s', ' ')))
+        body = def_random_body(rng)
+        if sp:
+            body = rng.choice((body + rng.choice(('', ' ')) + '<<s>>', '<<s>>' + rng.choice(('', ' ')) + body))
+        bodies.append(('random', sig, sp, body))
+
+    def outcome(w, text):
+        real_expand(env, w, reset)                   # each evaluation starts from the state a fresh writer has after `pre`
+        r = real_expand(env, w, text)
+        return decode(r) if r.startswith('ok') else None, r
+
+    for lab, sig, sp, body in bodies:
+        inames = [p.partition('=')[0] for p in sig.split(',')]
+        idef = {p.partition('=')[0]: int(p.partition('=')[2]) for p in sig.split(',') if '=' in p}
+        pad = (rng.choice((' ', '  ')), rng.choice(('', ' ', '  ')))
+        defs = []
+        for flags in range(4):
+            field = flags & 1
+            ssig = ''
+            if sp:
+                ssig = '(%s%s)' % (sp[0], '' if sp[1] is None else '=' + def_render(sp[1], field))
+            defs.append('#DEF%s(#ZQ%s(%s)%s%s%s%s)' % (flags or rng.choice(('', '0')), 'ABCD'[flags], sig, ssig, pad[0], def_render(body, field), pad[1]))
+        posts = DEF_POSTS if lab != 'random' else rng.sample(DEF_POSTS, 5)
+        for html in (False, True):
+            w = env.writer(html)
+            hist = [pre] + defs
+            bad_def = False
+            for t in hist:
+                r = real_expand(env, w, t)
+                if not r.startswith('ok'):
+                    chk.violation('semantics-def-define', f'{t!r} gives {r!r} (html={html})',
+                                  {'kind': 'hist', 'html': html, 'base': 0, 'case': 0, 'history': hist[:hist.index(t) + 1], 'expected': '', 'canon': True})
+                    bad_def = True
+                    break
+            if bad_def:
+                continue
+            for post in posts:
+                for trial in range(2 if lab != 'random' else 1):
+                    vals = {n: rng.choice((1, 1, 2, 12, 15)) for n in inames}
+                    given = [n for n in inames if n not in idef or rng.random() < 0.5]
+                    if rng.random() < 0.5 or not given:
+                        given = inames[:max(1, max((inames.index(n) for n in given), default=0) + 1)]
+                        args = ','.join(str(vals[n]) for n in given)
+                    else:
+                        rng.shuffle(given)
+                        args = ','.join('%s=%d' % (n, vals[n]) for n in given)
+                    eff = {n: (vals[n] if n in given else idef[n]) for n in inames}
+                    bare = post in ('', ' end', '.', ' 5') and '=' not in args and not sp and rng.random() < 0.4
+                    sarg = ''
+                    if sp:
+                        if sp[1] is None or (rng.random() < 0.5 and post[:1] != '(') or post[:1] == '(':
+                            sval = rng.choice(('str', ' pad ', '', 'x y', '9'))
+                            sarg = '(%s)' % sval
+                        else:
+                            sval = def_subst(sp[1].strip(), eff)          # (a default value is stripped when the macro is defined)
+                        eff[sp[0]] = sval
+                    site = (lambda name: '[#ZQ%s%s%s%s]' % (name, args if bare else '(' + args + ')', sarg, post))
+                    # oracles computed with the body written out by hand at the call site / on its own
+                    plain = def_subst(body.strip(), eff)           # (the body is stripped when the macro is defined, before substitution)
+                    inplace, rin = outcome(w, '[' + plain + post + ']')
+                    alone, ral = outcome(w, plain)
+                    isolated = None if alone is None else '[' + alone.strip() + post + ']'
+                    res = [outcome(w, site('ABCD'[f])) for f in range(4)]
+                    note_case(chk, 'sem-def-flags', ('defflags', body, sig, args, sarg, post, html),
+                              {'defs': defs, 'call': site('D'), 'flags0': rin[:60], 'flags2': ral[:60]})
+                    hz = lambda f: {'kind': 'hist', 'html': html, 'base': 0, 'case': 0, 'history': hist + [site('ABCD'[f])]}
+                    ctx = f'after {pre!r}, (html={html})'
+                    for f, g in ((3, 2), (1, 0)):
+                        (of, rf), (og, rg) = res[f], res[g]
+                        if of != og or (of is None) != (og is None):
+                            exp = og if og is not None else None
+                            chk.violation(f'semantics-def-flags:{f}-differs-from-{g}',
+                                          f'{defs[f]!r} then {site("ABCD"[f])!r} gives {of if of is not None else rf!r}; the same macro written with '
+                                          f'$-placeholders, {defs[g]!r} then {site("ABCD"[g])!r}, gives {og if og is not None else rg!r} {ctx}',
+                                          dict(hz(f), expected=exp) if exp is not None else
+                                          {'kind': 'sem', 'html': html, 'base': 0, 'case': 0, 'text': ' '.join(hist + [site('ABCD'[f])]), 'expected': None})
+                    for f in (0, 1):
+                        of, rf = res[f]
+                        if of != inplace:
+                            exp = inplace
+                            chk.violation(f'semantics-def-flags:{f}-not-the-body-at-the-call-site',
+                                          f'{defs[f]!r} then {site("ABCD"[f])!r} gives {of if of is not None else rf!r}; the body written at the call '
+                                          f'site, {"[" + plain + post + "]"!r}, gives {inplace if inplace is not None else rin!r} {ctx}',
+                                          dict(hz(f), expected=exp) if exp is not None else
+                                          {'kind': 'sem', 'html': html, 'base': 0, 'case': 0, 'text': ' '.join(hist + [site('ABCD'[f])]), 'expected': None})
+                    for f in (2, 3):
+                        of, rf = res[f]
+                        if of != isolated:
+                            exp = isolated
+                            chk.violation(f'semantics-def-flags:{f}-not-isolated-and-stripped',
+                                          f'{defs[f]!r} then {site("ABCD"[f])!r} gives {of if of is not None else rf!r}; documented (flags & 2): the body '
+                                          f'{plain!r} expanded on its own ({alone if alone is not None else ral!r}), stripped, followed by {post!r} {ctx}',
+                                          dict(hz(f), expected=exp) if exp is not None else
+                                          {'kind': 'sem', 'html': html, 'base': 0, 'case': 0, 'text': ' '.join(hist + [site('ABCD'[f])]), 'expected': None})
+    # expected texts written out (documentation examples and the two shapes above, ASM and HTML)
+    fixed = (
+        ('#DEF2(#SQ(n) #LET(x=$n*$n) #EVAL({x}))', '[#SQ7]', '[49]'),
+        ('#DEF3(#SQ(n) #LET(x={n}*{n}) #EVAL({{x}}))', '[#SQ7]', '[49]'),
+        ('#DEF(#SQ(n) #LET(x=$n*$n) #EVAL({x}))', '[#SQ7]', '[ 49]'),
+        ('#DEF1(#SQ(n) #LET(x={n}*{n}) #EVAL({{x}}))', '[#SQ7]', '[ 49]'),
+        ('#POKES1,77;15,99 #DEF2(#PK(a) #PEEK$a)', '[#PK(1)5]', '[775]'),
+        ('#POKES1,77;15,99 #DEF3(#PK(a) #PEEK{a})', '[#PK(1)5]', '[775]'),
+        ('#POKES1,77;15,99 #DEF(#PK(a) #PEEK$a)', '[#PK(1)5]', '[99]'),
+        ('#POKES1,77;15,99 #DEF1(#PK(a) #PEEK{a})', '[#PK(1)5]', '[99]'),
+        ('#DEF2(#IFZERO(n)(a,b) #IF($n==0)($a,$b))', '[#IFZERO(0)(yes,no)|#IFZERO(3)(yes,no)]', '[yes|no]'),
+        ('#DEF3(#IFZERO(n)(a,b) #IF({n}==0)({a},{b}))', '[#IFZERO(0)(yes,no)|#IFZERO(3)(yes,no)]', '[yes|no]'),
+        ('#DEF(#IFZERO(n) #IF($n==0))', '[#IFZERO(0)(yes,no)|#IFZERO(3)(yes,no)]', '[yes|no]'),
+        ('#DEF1(#IFZERO(n) #IF({n}==0))', '[#IFZERO(0)(yes,no)|#IFZERO(3)(yes,no)]', '[yes|no]'),
+        ('#DEF2(#IFZERO(n) #IF($n==0))', '[#IFZERO(0)(yes,no)]', None),
+        ('#DEF3(#IFZERO(n) #IF({n}==0))', '[#IFZERO(0)(yes,no)]', None),
+        ('#DEF1(#HEX(n) {n:04X})', '[#HEX(255)0]', '[00FF0]'),
+        ('#DEF3(#HEX(n) {n:04X} )', '[#HEX(255)0]', '[00FF0]'),
+        ('#DEF2(#PAD(n)(s) #IF($n)( $s , - ))', '[#PAD(1)(mid)]', '[mid]'),
+        ('#DEF3(#PAD(n)(s) #IF({n})( {s} , - ))', '[#PAD(1)(mid)]', '[mid]'),
+        ('#DEF3(#NUM(a)(s={a}) {s}#N{a})', '[#NUM(15),,4]', '[1515,,4]'),
+        ('#DEF1(#NUM(a)(s={a}) {s}#N{a})', '[#NUM(15),,4]', '[150015]'),
+    )
+    for define, call, exp in fixed:
+        for html in (False, True):
+            w = env.writer(html)
+            r0 = real_expand(env, w, define)
+            r = real_expand(env, w, call)
+            note_case(chk, 'sem-def-flags-fixed', ('defflagsfixed', define, html), {'define': define, 'call': call, 'expected': exp})
+            got = decode(r) if r.startswith('ok') else None
+            if not r0.startswith('ok') or got != exp:
+                chk.violation('semantics-def-flags:documented-example',
+                              f'after {define!r}, {call!r} gives {got if got is not None else r!r}; documented: {exp if exp is not None else "an error (the definition is not self-contained)"!r} (html={html})',
+                              {'kind': 'hist', 'html': html, 'base': 0, 'case': 0, 'history': [define, call], 'expected': exp} if exp is not None else
+                              {'kind': 'sem', 'html': html, 'base': 0, 'case': 0, 'text': define + ' ' + call, 'expected': None})
+
+
 def e2e_modes(chk, env, gen):
     """Same histories through an AsmWriter and an HtmlWriter: equal modulo HTML escaping (and white space)."""
     rng = chk.rng
@@ -1914,7 +2132,11 @@ def run(chk):
                 '#LET and #DEF-defined macros (sem-nested-*); string parameter lists in every delimiter/separator form with parenthesised '
                 'commas; #CHR and #STR flags, terminators and lengths; #PUSHS name character set; #FOR flag 4, empty fsep; #MAP values with '
                 'colons; #IF on signed integers; #POKES with negative steps; dictionary variables; #WHILE; #FORMAT case; #DEF flags 0-3 with '
-                'string defaults that refer to integer arguments; markup characters (< > &) passing through macros in both tools')
+                'string defaults that refer to integer arguments; #DEF flags as a sum (sem-def-flags: every body defined four times, flags 0-3, '
+                '$-form and field form, x integer/string defaults x positional/keyword calls x call sites followed by digits, commas, '
+                'operators and brackets; bodies with leading/trailing/inner blanks, empty expansions and a last macro with an open '
+                'parameter list (#PEEK #EVAL #N #CHR #SPACE #MAP #IF #FOR #STR); exact comparison: 3 = 2, 1 = 0, 0 = the body written at '
+                'the call site, 2 = the body expanded alone and stripped); markup characters (< > &) passing through macros in both tools')
     chk.trusted += ['hand models lean/SkoolVerif/Model/Macro{Text,Expr,Args,Ops,Expand}.lean tied by correspondence (harness/props/c17.py)',
                     'CPython (eval() is the reference the evaluator model is tied to; html.unescape; str.format)']
     chk.assumptions += ['theorems are about the model; the real code is tied to it by differential execution on generated inputs only',
@@ -1939,6 +2161,7 @@ def run(chk):
     corr_expand(chk, env, gen)
     e2e_semantics(chk, env)
     e2e_def(chk, env)
+    e2e_def_flags(chk, env)
     e2e_nested(chk, env)
     e2e_modes(chk, env, gen)
     e2e_tools(chk, env, gen)
